@@ -155,12 +155,12 @@ Proof.
 Qed.
 
 (** * CalcOrder *)
-Lemma calc_order_ok_inv h ie o : calc_order h = CoOk ie o -> h_num h <> 0 ->
+Lemma calc_order_ok_inv h ie o : calc_order h = CoOk ie o -> num64 h <> 0 ->
   ie = intrinsic_entropy (h_pow h) /\ 0 < h_pow h <= big2e256 / h_diff h /\ 2 <= h_diff h /\
   (o = ctx_prime \/ o = ctx_region \/ o = ctx_zone).
 Proof.
   unfold calc_order. intros H Hn.
-  destruct (Z.eqb_spec (h_num h) 0); [contradiction|].
+  destruct (Z.eqb_spec (num64 h) 0); [contradiction|].
   destruct (Z.leb_spec (h_diff h) 0); [discriminate|].
   destruct (Z.ltb_spec (big2e256 / h_diff h) (h_pow h)); [discriminate|].
   destruct (Z.leb_spec (h_pow h) 0); [discriminate|].
@@ -174,30 +174,30 @@ Proof.
 Qed.
 
 (* an accepted seal carries at least one bit of entropy *)
-Lemma calc_order_entropy_pos h ie o : calc_order h = CoOk ie o -> h_num h <> 0 -> 2 ^ mant_bits <= ie.
+Lemma calc_order_entropy_pos h ie o : calc_order h = CoOk ie o -> num64 h <> 0 -> 2 ^ mant_bits <= ie.
 Proof.
   intros H Hn. destruct (calc_order_ok_inv h ie o H Hn) as (E & Hp & Hd & _). subst ie.
   apply intrinsic_entropy_lower with (d := h_diff h); lia.
 Qed.
 
-Lemma calc_order_genesis_number h : h_num h = 0 -> calc_order h = CoOk 0 ctx_prime.
+Lemma calc_order_genesis_number h : num64 h = 0 -> calc_order h = CoOk 0 ctx_prime.
 Proof. intros H. unfold calc_order. rewrite H. reflexivity. Qed.
 
 (* the order is a function of number, difficulty, seal (pow hash), recorded entropy deltas and expansion number only *)
 Lemma calc_order_inputs h1 h2 :
-  h_num h1 = h_num h2 -> h_diff h1 = h_diff h2 -> h_pow h1 = h_pow h2 ->
+  num64 h1 = num64 h2 -> h_diff h1 = h_diff h2 -> h_pow h1 = h_pow h2 ->
   h_pd_r h1 = h_pd_r h2 -> h_pd_z h1 = h_pd_z h2 -> h_expansion h1 = h_expansion h2 ->
   calc_order h1 = calc_order h2.
 Proof. intros E1 E2 E3 E4 E5 E6. unfold calc_order. rewrite E1, E2, E3, E4, E5, E6. reflexivity. Qed.
 
 (* prime order requires both thresholds strictly exceeded *)
-Lemma calc_order_prime_inv h ie : calc_order h = CoOk ie ctx_prime -> h_num h <> 0 ->
+Lemma calc_order_prime_inv h ie : calc_order h = CoOk ie ctx_prime -> num64 h <> 0 ->
   let zt := intrinsic_entropy (crop_hash (big2e256 / h_diff h)) in
   let pet := prime_entropy_target (h_expansion h) in
   zt + bits_to_bigbits pet < ie /\ pet * zt / big2 < h_pd_r h + h_pd_z h + ie.
 Proof.
   unfold calc_order. intros H Hn.
-  destruct (Z.eqb_spec (h_num h) 0); [contradiction|].
+  destruct (Z.eqb_spec (num64 h) 0); [contradiction|].
   destruct (Z.leb_spec (h_diff h) 0); [discriminate|].
   destruct (Z.ltb_spec (big2e256 / h_diff h) (h_pow h)); [discriminate|].
   destruct (Z.leb_spec (h_pow h) 0); [discriminate|].
@@ -307,7 +307,7 @@ Lemma parent_entropy_accumulated e p c : valid_child e p c = true ->
 Proof. intros V. rewrite (pin_parent_entropy _ _ _ V). reflexivity. Qed.
 
 Lemma parent_entropy_step e p c ie : valid_child e p c = true -> h_genesis p = false ->
-  calc_order p = CoOk ie ctx_zone -> h_num p <> 0 ->
+  calc_order p = CoOk ie ctx_zone -> num64 p <> 0 ->
   h_pe_z c = h_pe_z p + intrinsic_entropy (h_pow p) + h_ws p /\
   h_pd_z c = h_pd_z p + intrinsic_entropy (h_pow p) + h_ws p /\
   h_pud_z c = h_pud_z p + h_uncled p.
@@ -336,11 +336,11 @@ Definition own_entropy (h : header) : Z := intrinsic_entropy (h_pow h) + h_ws h.
 
 (* a zone-order block: not genesis, positive number, CalcOrder = zone, non-negative work-share entropy *)
 Definition zone_block (h : header) : bool :=
-  negb (h_genesis h) && negb (h_num h =? 0) && (0 <=? h_ws h) &&
+  negb (h_genesis h) && negb (num64 h =? 0) && (0 <=? h_ws h) &&
   match calc_order h with CoOk _ o => o =? ctx_zone | _ => false end.
 
 Lemma zone_block_inv h : zone_block h = true ->
-  h_genesis h = false /\ h_num h <> 0 /\ 0 <= h_ws h /\ calc_order h = CoOk (intrinsic_entropy (h_pow h)) ctx_zone.
+  h_genesis h = false /\ num64 h <> 0 /\ 0 <= h_ws h /\ calc_order h = CoOk (intrinsic_entropy (h_pow h)) ctx_zone.
 Proof.
   unfold zone_block. intros H.
   apply andb_prop in H. destruct H as [H H4]. apply andb_prop in H. destruct H as [H H3].
@@ -452,7 +452,7 @@ Proof.
     + destruct (Z.eqb_spec e0 0) as [Ez|Ez].
       * (* zero-entropy entry ignored: recompute *)
         destruct (calc_order h) as [e1 o1| |] eqn:Eco; cbn [fst snd]; try (split; [reflexivity|split; assumption]).
-        destruct (h_num h =? 0); cbn [fst snd]; [split; [reflexivity|split; assumption]|].
+        destruct (num64 h =? 0); cbn [fst snd]; [split; [reflexivity|split; assumption]|].
         split; [reflexivity|]. unfold cache_add. destruct (Z.eqb_spec e1 0); [split; assumption|].
         split; [apply put_sorted; exact Hs|].
         intros k e o Hg Hne. destruct (list_eq_dec N.eq_dec k (hkey h)) as [->|Hk].
@@ -461,7 +461,7 @@ Proof.
       * cbn [fst snd]. destruct (Hinv _ _ _ G Ez) as (h' & Ph' & Hk & Hco).
         split; [|split; assumption]. rewrite (Hcoll h h' Ph Ph' (eq_sym Hk)). symmetry. f_equal. exact Hco.
     + destruct (calc_order h) as [e1 o1| |] eqn:Eco; cbn [fst snd]; try (split; [reflexivity|split; assumption]).
-      destruct (h_num h =? 0); cbn [fst snd]; [split; [reflexivity|split; assumption]|].
+      destruct (num64 h =? 0); cbn [fst snd]; [split; [reflexivity|split; assumption]|].
       split; [reflexivity|]. unfold cache_add. destruct (Z.eqb_spec e1 0); [split; assumption|].
       split; [apply put_sorted; exact Hs|].
       intros k e o Hg Hne. destruct (list_eq_dec N.eq_dec k (hkey h)) as [->|Hk].
@@ -522,4 +522,105 @@ Proof.
     + intros h H. apply Hin. exact H.
     + apply cache_inv_empty.
   - right. exists h1, h2. rewrite !Hin. tauto.
+Qed.
+
+(** * verifyHeader: the number rule is exact on unbounded integers *)
+Lemma wrong_number_rejected e p c : h_num c <> expected_number p -> valid_child e p c = false.
+Proof.
+  intros Hn. destruct (valid_child e p c) eqn:V; [|reflexivity].
+  exfalso. apply Hn. exact (pin_number e p c V).
+Qed.
+
+(* no number congruent to (but different from) parent+1 modulo any width m is accepted: k*m away with k <> 0 *)
+Lemma congruent_number_rejected e p c m k : 0 < m -> k <> 0 -> h_num c = expected_number p + k * m ->
+  valid_child e p c = false.
+Proof. intros Hm Hk E. apply wrong_number_rejected. assert (k * m <> 0) by (apply Z.neq_mul_0; lia). lia. Qed.
+
+(** * histories of CalcOrder / Total / Delta / UncledDelta calls over the memo *)
+Definition hist_cache_op (o : hist_op) : cache_op :=
+  match o with HCall _ h => OpCall h | HEvict k => OpEvict k | HPurge => OpPurge end.
+
+Lemma hist_pure_genesis ctx f h : hist_fn_sum f && h_genesis h = true ->
+  hist_pure ctx f h = RZ 0.
+Proof. intros H. unfold hist_pure. rewrite H. reflexivity. Qed.
+
+Lemma hist_step_sound (P : header -> Prop) ctx c o :
+  (forall h1 h2, P h1 -> P h2 -> hkey h1 = hkey h2 -> calc_order h1 = calc_order h2) ->
+  (forall f h, o = HCall f h -> P h) ->
+  cache_inv P c -> snd (hist_step ctx c o) = hist_uncached ctx o /\ cache_inv P (fst (hist_step ctx c o)).
+Proof.
+  intros Hcoll HP Hinv. destruct o as [f h|k|]; cbn [hist_step hist_uncached].
+  - destruct (hist_fn_sum f && h_genesis h) eqn:G.
+    + cbn [fst snd]. split; [|exact Hinv]. rewrite (hist_pure_genesis ctx f h G). reflexivity.
+    + destruct (cache_step_sound P c (OpCall h) Hcoll) as [E Hinv'].
+      { intros h' Eh. inversion Eh; subst. exact (HP f h' eq_refl). }
+      { exact Hinv. }
+      cbn [cache_step uncached] in E, Hinv'.
+      destruct (calc_order_cached c h) as [c' r]. cbn [fst snd] in *.
+      inversion E; subst r. split; [|exact Hinv'].
+      unfold hist_pure. rewrite G. reflexivity.
+  - destruct (cache_step_sound P c (OpEvict k) Hcoll) as [_ Hinv'].
+    { intros h' Eh. discriminate. }
+    { exact Hinv. }
+    cbn [cache_step fst snd] in *. split; [reflexivity|exact Hinv'].
+  - cbn [fst snd]. split; [reflexivity|apply cache_inv_empty].
+Qed.
+
+Lemma hist_run_sound (P : header -> Prop) ctx :
+  (forall h1 h2, P h1 -> P h2 -> hkey h1 = hkey h2 -> calc_order h1 = calc_order h2) ->
+  forall ops c, (forall f h, In (HCall f h) ops -> P h) -> cache_inv P c ->
+  hist_run ctx c ops = map (hist_uncached ctx) ops.
+Proof.
+  intros Hcoll. induction ops as [|o ops IH]; intros c HP Hinv; [reflexivity|].
+  cbn [hist_run map].
+  destruct (hist_step_sound P ctx c o Hcoll) as [E Hinv'].
+  { intros f h ->. apply (HP f). left. reflexivity. }
+  { exact Hinv. }
+  destruct (hist_step ctx c o) as [c' r]. cbn [fst snd] in *. subst r. f_equal.
+  apply IH; [|exact Hinv']. intros f h Hin. apply (HP f). right. exact Hin.
+Qed.
+
+Definition hist_collision (ops : list hist_op) : Prop :=
+  exists f1 h1 f2 h2, In (HCall f1 h1) ops /\ In (HCall f2 h2) ops /\ hkey h1 = hkey h2 /\ calc_order h1 <> calc_order h2.
+
+Lemma headers_collision_dec (l : list header) :
+  (forall h1 h2, In h1 l -> In h2 l -> hkey h1 = hkey h2 -> calc_order h1 = calc_order h2) \/
+  (exists h1 h2, In h1 l /\ In h2 l /\ hkey h1 = hkey h2 /\ calc_order h1 <> calc_order h2).
+Proof.
+  assert (D : forall h1 h2 : header, {hkey h1 = hkey h2 /\ calc_order h1 <> calc_order h2} + {~ (hkey h1 = hkey h2 /\ calc_order h1 <> calc_order h2)}).
+  { intros h1 h2. destruct (list_eq_dec N.eq_dec (hkey h1) (hkey h2)) as [Ek|Nk]; [|right; tauto].
+    destruct (co_result_eq_dec (calc_order h1) (calc_order h2)) as [Ec|Nc]; [right; tauto|left; tauto]. }
+  destruct (Exists_dec (fun h1 => Exists (fun h2 => hkey h1 = hkey h2 /\ calc_order h1 <> calc_order h2) l) l) as [Ex|Nex].
+  { intros h1. apply Exists_dec. intros h2. apply D. }
+  - right. apply Exists_exists in Ex. destruct Ex as (h1 & I1 & Ex). apply Exists_exists in Ex. destruct Ex as (h2 & I2 & Hk & Hc).
+    exists h1, h2. tauto.
+  - left. intros h1 h2 I1 I2 Hk. destruct (co_result_eq_dec (calc_order h1) (calc_order h2)) as [Ec|Nc]; [exact Ec|].
+    exfalso. apply Nex. apply Exists_exists. exists h1. split; [exact I1|]. apply Exists_exists. exists h2. tauto.
+Qed.
+
+(* for EVERY history of CalcOrder / TotalLogEntropy / DeltaLogEntropy / UncledDeltaLogEntropy calls, evictions and
+   restarts, in every node context, every call returns the function of the header alone — or a hash collision *)
+Lemma hist_sound ctx ops : hist_run ctx [] ops = map (hist_uncached ctx) ops \/ hist_collision ops.
+Proof.
+  set (hs := flat_map (fun o => match o with HCall _ h => [h] | _ => [] end) ops).
+  assert (Hin : forall h, (exists f, In (HCall f h) ops) <-> In h hs).
+  { intros h. subst hs. rewrite in_flat_map. split.
+    - intros (f & H). exists (HCall f h). split; [exact H|left; reflexivity].
+    - intros (o & Ho & Hh). destruct o as [f h'| |]; cbn in Hh; try contradiction. destruct Hh as [->|[]]. exists f. exact Ho. }
+  destruct (headers_collision_dec hs) as [Hno|(h1 & h2 & I1 & I2 & Hk & Hc)].
+  - left. apply hist_run_sound with (P := fun h => In h hs).
+    + exact Hno.
+    + intros f h H. apply Hin. exists f. exact H.
+    + apply cache_inv_empty.
+  - right. apply Hin in I1. apply Hin in I2. destruct I1 as (f1 & I1). destruct I2 as (f2 & I2).
+    exists f1, h1, f2, h2. tauto.
+Qed.
+
+(* stability: two calls of the same function on the same header anywhere in a history return the same value *)
+Lemma hist_stable ctx ops i j f h :
+  nth_error ops i = Some (HCall f h) -> nth_error ops j = Some (HCall f h) ->
+  nth_error (hist_run ctx [] ops) i = nth_error (hist_run ctx [] ops) j \/ hist_collision ops.
+Proof.
+  intros Hi Hj. destruct (hist_sound ctx ops) as [E|C]; [left|right; exact C].
+  rewrite E. rewrite (map_nth_error (hist_uncached ctx) _ _ Hi), (map_nth_error (hist_uncached ctx) _ _ Hj). reflexivity.
 Qed.
